@@ -469,6 +469,13 @@ func main() {
 	if mode == "all" || mode == "agg" {
 		runAggCases(r, n, nil)
 	}
+	if mode == "all" || mode == "limit" {
+		runLimitCases(r, n)
+	}
+	if mode == "all" || mode == "merge" {
+		runMergeCases(r, n, "merge")
+		runMergeCases(r, n, "sortmerge")
+	}
 }
 
 func runFillCases(r *gen.Rand, n int) {
